@@ -38,19 +38,35 @@ ASSUMPTIONS = ["sqlparse cuts text at top-level ';' and sqlfluff splits T-SQL ba
 class _Tok:
     def __init__(self, ttype, value):
         self.ttype, self.value = ttype, value
+        self.normalized = value
+        self.is_keyword = False
+
+    def match(self, ttype, values, regex=False):
+        """sqlparse.sql.Token.match for the cases a splitter can ask about"""
+        if self.ttype is not ttype and not (self.ttype is not None and self.ttype in ttype):
+            return False
+        if values is None:
+            return True
+        if isinstance(values, str):
+            values = (values,)
+        return any(bool(self.value == v) for v in values)
 
 
 class _Stmt:
     def __init__(self, kind, text):
         self.kind, self.value = kind, text
 
-    def token_first(self, skip_cm=True, **kw):
-        from sqlparse.tokens import Keyword, Punctuation
+    def token_first(self, skip_ws=True, skip_cm=False, **kw):
+        from sqlparse.tokens import Comment, Keyword, Punctuation
 
-        if self.kind == "empty":
-            return None
+        if self.kind == "empty":                      # comment-only piece
+            return None if skip_cm else _Tok(Comment.Single, SymStr.const("-- c;"))
         if self.kind == "semicolon":
             return _Tok(Punctuation, SymStr.const(";"))
+        if self.kind == "comment_semicolon":          # a comment, then a stray ';'
+            return _Tok(Punctuation, SymStr.const(";")) if skip_cm else _Tok(Comment.Multiline, SymStr.const("/* c */"))
+        if self.kind == "comment_stmt" and not skip_cm:   # a comment, then a real statement
+            return _Tok(Comment.Multiline, SymStr.const("/* c */"))
         return _Tok(Keyword.DML, SymStr.const("SELECT"))
 
 
@@ -67,15 +83,17 @@ class SplitKernelOb(Obligation):
 
         from sqllineage.utils import helpers
 
-        kinds = [["empty", "semicolon", "stmt"][fork_choice("kind%d" % i, 3)] for i in range(self.n)]
-        pieces = [_Stmt(k, SymStr.var("txt%d" % i, 3, "qz;'- ") if k == "stmt" else SymStr.const(";" if k == "semicolon" else "-- c;")) for i, k in enumerate(kinds)]
+        KINDS = ["empty", "semicolon", "stmt", "comment_semicolon", "comment_stmt"]
+        kinds = [KINDS[fork_choice("kind%d" % i, len(KINDS))] for i in range(self.n)]
+        text = {"semicolon": ";", "empty": "-- c;", "comment_semicolon": "/* c */ ;"}
+        pieces = [_Stmt(k, SymStr.var("txt%d" % i, 3, "qz;'- ") if k in ("stmt", "comment_stmt") else SymStr.const(text[k])) for i, k in enumerate(kinds)]
         real_parse = sqlparse.parse
         sqlparse.parse = lambda sql, *a, **k: list(pieces)
         try:
             got = helpers.split(SymStr.const("<script>"))
         finally:
             sqlparse.parse = real_parse
-        want = [p.value for p in pieces if p.kind == "stmt"]
+        want = [p.value for p in pieces if p.kind in ("stmt", "comment_stmt")]
         ok = len(got) == len(want) and all(g is w or bool(g == w) for g, w in zip(got, want))
         return Verdict(ok, {"kinds": kinds, "got": got, "want": want})
 
@@ -88,8 +106,13 @@ class SplitKernelOb(Obligation):
             if k == "stmt":
                 parts.append("SELECT c%d FROM t%d;" % (i, i))
                 want += 1
+            elif k == "comment_stmt":
+                parts.append("/* c;%d */ SELECT c%d FROM t%d;" % (i, i, i))
+                want += 1
             elif k == "semicolon":
                 parts.append(";")
+            elif k == "comment_semicolon":
+                parts.append("/* done */ ;")
             else:
                 parts.append("-- only a comment ; here\n")
         code = "from sqllineage.utils.helpers import split\nr = split(%r)\nresult = {'ok': len(r) == %d, 'got': r}\n" % ("\n".join(parts), want)
@@ -223,7 +246,7 @@ def obligations(tier, seed):
     import random
 
     rnd = random.Random("c05/%s" % seed)
-    obs = [SplitKernelOb(n) for n in (1, 2, 3, 4, 5)]
+    obs = [SplitKernelOb(n) for n in ((1, 2, 3, 4) if tier == "quick" else (1, 2, 3, 4, 5))]
     for d, kinds in DIALECT_KINDS.items():
         pairs = list(itertools.product(kinds, repeat=2))
         triples = list(itertools.product(kinds, repeat=3))
